@@ -5,6 +5,7 @@ import random
 
 from . import common as C
 from . import gen, solverlib
+from . import tabular as T_
 
 
 def jobs_for(tier, rng):
@@ -57,6 +58,16 @@ def jobs_for(tier, rng):
                 pi.append(job)
             else:
                 vi.append(job)
+    # action spaces beyond 16-bit index limits
+    # (thorough tier only: the model checker needs minutes for 33 000 actions)
+    for na in ([] if tier == "quick" else [33000]):
+        # (one state and two sweeps: the model checker's cost grows with states x actions x events of the trace)
+        m = T_.random_mdp(rng, ns=1, na=na, ne=1, PD=1, rmax=0, plain_render=True)
+        for a in range(na):
+            m["next"][0][a] = [0]
+            m["rew"][0][a] = [(a * 7) % 10 + (40 if a >= na - 100 else 0)]
+        vi.append({"mdp": m, "kind": "VI", "gamma": [1, 2], "eps": [1, 1], "test": "span", "calls": [2], "cert": False,
+                   "mbs": 1024, "tag": f"VI-na{na}", "min_pick": 32769})
     # degenerate shapes and limits: one state / action / event, all-zero rewards, gamma = 0, iteration limit 1
     # (limit 0 is outside the properties - "positive limits" - and raises UnboundLocalError in the VI family)
     from . import tabular as T
